@@ -168,28 +168,53 @@ func ruleRemove(c *core.Ctx, lc *core.LockCache, objects *types.Var, class core.
 		return
 	}
 	idp := ssa.Value(fn.Params[1])
+	// the critical section (lookup + delete) is in Remove itself, or in a helper that
+	// is handed the id and returns the object found: obj, ok := s.detach(id)
+	secFn, secID := fn, idp
 	var lk *ssa.Lookup
 	for _, l := range mapLookups(fn, objects) {
 		if l.CommaOk && core.Canon(l.Index) == idp {
 			lk = l
 		}
 	}
+	var lh *lookupHelper
+	if lk == nil {
+		if lh = findLookupHelper(c, fn, objects); lh != nil && lh.vi >= 0 && lh.keyArg() != nil && core.Canon(lh.keyArg()) == idp {
+			lk, secFn, secID = lh.lk, lh.h, core.Canon(lh.lk.Index)
+		} else {
+			lh = nil
+		}
+	}
 	if lk == nil {
 		c.Fail(rule, "bus.serviceImpl.Remove/lookup", fn.Pos(), "Remove does not look the object up by the id it was given")
 		return
 	}
-	lf := lc.Get(fn)
-	held, _ := lf.HeldAt(lk, class, true)
+	// how Remove sees the outcome of the lookup
+	isOK := okOf(lk)
+	isVal := func(v ssa.Value) bool { return valueOfLookup(lk, v) }
+	if lh != nil {
+		isOK, isVal = lh.isOK, lh.isVal
+	}
+	held, _ := lc.Get(secFn).HeldAt(lk, class, true)
 	c.Check(held, rule, "bus.serviceImpl.Remove/lookup", lk.Pos(), "lookup under the exclusive lock", "the object is looked up without the exclusive lock: two concurrent Remove calls both find it and terminate it twice")
-	_, dels := mapWrites(fn, objects)
+	_, dels := mapWrites(secFn, objects)
 	var del *ssa.Call
 	for _, d := range dels {
-		if core.Canon(d.Call.Args[1]) == idp && core.Guarded(fn, d, core.IsTrue(okOf(lk))) && sameSection(fn, lk, d, class) {
+		if core.Canon(d.Call.Args[1]) == secID && core.Guarded(secFn, d, core.IsTrue(okOf(lk))) && sameSection(secFn, lk, d, class) {
 			del = d
 		}
 	}
 	c.Check(del != nil, rule, "bus.serviceImpl.Remove/delete", fn.Pos(), "delete(objects, id) on the found edge, in the lookup's critical section",
 		"the entry found is not deleted within the critical section of the lookup: a second Remove (or a Terminate racing with it) runs the termination hook again")
+	// in Remove, "after the delete" is after the delete itself, or after the helper call that performs it
+	var delPoint ssa.Instruction
+	if del != nil {
+		delPoint = del
+		if lh != nil {
+			delPoint = lh.call
+		}
+	}
+	lf := lc.Get(fn)
 	// OnTerminate exactly once, on the looked-up object, after the delete, outside the lock
 	var terms []ssa.CallInstruction
 	for _, call := range core.Calls(fn) {
@@ -206,11 +231,11 @@ func ruleRemove(c *core.Ctx, lc *core.LockCache, objects *types.Var, class core.
 		in := t.(ssa.Instruction)
 		bad := ""
 		switch {
-		case !valueOfLookup(lk, t.Common().Value):
+		case !isVal(t.Common().Value):
 			bad = "OnTerminate is invoked on something else than the object found under the id"
-		case !core.Guarded(fn, in, core.IsTrue(okOf(lk))):
+		case !core.Guarded(fn, in, core.IsTrue(isOK)):
 			bad = "OnTerminate can run although no object was found"
-		case del != nil && !core.Dominates(del, in):
+		case delPoint != nil && !core.Dominates(delPoint, in):
 			bad = "OnTerminate runs before the entry is deleted: a concurrent Remove finds it again and terminates it twice"
 		case core.CanReach(in, func(x ssa.Instruction) bool {
 			k, ok := x.(ssa.CallInstruction)
@@ -232,7 +257,7 @@ func ruleRemove(c *core.Ctx, lc *core.LockCache, objects *types.Var, class core.
 	okRet := true
 	for _, ret := range core.Returns(fn) {
 		if successReturn(ret) {
-			if !core.Guarded(fn, ret, core.IsTrue(okOf(lk))) {
+			if !core.Guarded(fn, ret, core.IsTrue(isOK)) {
 				okRet = false
 			}
 			for _, t := range terms {
